@@ -10,6 +10,7 @@ import random
 from . import world as W
 from . import printer as P
 from . import rig
+from . import logworld as L
 
 FAKE_DIR = os.path.join(os.path.dirname(os.path.abspath(__file__)), 'fakegdb')
 
@@ -124,6 +125,31 @@ class GdbSim:
                 self.rec.add('fault-write', text)
                 self.fault_fired = True
                 self.counters['fault_ctrl_c_in_closed_notice'] = self.counters.get('fault_ctrl_c_in_closed_notice', 0) + 1
+                raise KeyboardInterrupt()
+        ml = self.cfg.get('ctrl_c_in_message_line')
+        cl_ = getattr(self, 'cur_cl', None)
+        if (ml is not None and self.in_stop and cl_ is not None and not getattr(self, 'message_line_fault_done', False)
+                and cl_.name not in ('set_app_id', 'set_title', 'get_layer_surface') and L.MSG_RE.match(text)):
+            self.message_line_writes = getattr(self, 'message_line_writes', 0) + 1
+            if self.message_line_writes - 1 == ml:
+                # the user's Ctrl-C lands while the live view prints a message line: gdb raises KeyboardInterrupt inside
+                # gdb.write, stop() raises, gdb halts the program, the user continues.  That one line is lost on the screen;
+                # the message is recorded and everything afterwards goes on as before
+                self.message_line_fault_done = True
+                self.fault_fired = True
+                self.rec.add('fault-write', text)
+                self.counters['fault_ctrl_c_in_message_line'] = self.counters.get('fault_ctrl_c_in_message_line', 0) + 1
+                raise KeyboardInterrupt()
+        g = self.cfg.get('ctrl_c_in_command_output')
+        cur = self.current_cmd
+        if g is not None and cur is not None and (cur.get('meta') or {}).get('t') in ('list', 'other', 'help') and not cur.get('injected_fault'):
+            self.command_writes = getattr(self, 'command_writes', 0) + 1
+            if self.command_writes - 1 == g:
+                # the user's Ctrl-C lands while a command that changes nothing (a listing, help) prints: gdb raises
+                # KeyboardInterrupt inside gdb.write, the command is abandoned, the program must stay halted
+                cur['injected_fault'] = True
+                self.rec.add('fault-write', text)
+                self.counters['fault_ctrl_c_in_command_output'] = self.counters.get('fault_ctrl_c_in_command_output', 0) + 1
                 raise KeyboardInterrupt()
         for line in text.split('\n')[:-1] if text.endswith('\n') else text.split('\n'):
             self.rec.add('out', line)
@@ -441,6 +467,7 @@ class GdbSim:
     def message_hit(self, slot, cl):
         g = self.gdb
         self.rec.add('line', (cl.conn, cl.idx, cl.name))
+        self.cur_cl = cl
         sent = P.is_sent(cl, slot.side)
         ca = self.build_closure(slot, cl, received=not sent)
         closure_v = g.Value(g.lookup_type('wl_closure').pointer(), raw=ca)
